@@ -9,7 +9,7 @@ error => false, and the routed result."""
 import json, concurrent.futures as cf
 import vlib
 
-BYTES_QUICK = [65, 32, 9, 128, 124, 47, 42, 60, 61, 48, 35, 63, 37]          # ... and the URI-special # ? %
+BYTES_QUICK = [65, 32, 9, 127, 128, 124, 47, 42, 60, 61, 48, 35, 63, 37]          # ... and the URI-special # ? %
 BYTES_FULL = [65, 32, 9, 127, 128, 124, 47, 58, 42, 60, 62, 61, 33, 97, 48, 46, 45, 126, 118, 0, 35, 63, 37, 64, 38, 59, 92, 34, 43]
 
 def check(run):
